@@ -157,9 +157,14 @@ Answer(s, k) ==
 FullOK(s, e) ==
   CASE T.kind \in {"bloom", "disk"} ->
          IF e.op = "union" THEN {e.full[i] : i \in 1..Len(e.full)} = s.bits \cup AllPos(e.ks)     \* the union of this filter with a filter holding ks
+         ELSE IF e.op = "inter" THEN {e.full[i] : i \in 1..Len(e.full)} = s.bits \cap AllPos(e.ks)
          ELSE {e.full[i] : i \in 1..Len(e.full)} = s.bits
     [] T.kind \in {"cbloom", "cms"} ->
-         LET c2 == IF e.op = "union" THEN s.c (+) CellBag(e.ks, 1, Len(e.ks)) ELSE s.c IN       \* a counting-Bloom union is a query: this filter + a filter holding ks
+         LET b2 == CellBag(e.ks, 1, Len(e.ks))
+             both == (DOMAIN s.c) \cap (DOMAIN b2)
+             c2 == IF e.op = "union" THEN s.c (+) b2                                   \* a counting-Bloom union is a query: this filter + a filter holding ks
+                   ELSE IF e.op = "inter" THEN [p \in both |-> s.c[p] + b2[p]]          \* intersection: positions non-zero in both, cell-wise sum
+                   ELSE s.c IN
          /\ \A i \in 1..Len(e.full) : Cnt(c2, e.full[i][1]) = e.full[i][2]
          /\ Len(e.full) = Cardinality(DOMAIN c2)
     [] T.kind = "st" -> LET want == {k \in DOMAIN s.last : s.last[k] >= T.est} IN      \* est carries the threshold
@@ -188,13 +193,14 @@ Bad(s, e) ==     \* s = model state after the event
   LET pr == e.probes
       kind == T.kind
       I == 1..Len(pr)
-      unionEv == e.op = "union"
-      su == IF unionEv /\ kind \in {"bloom", "disk"} THEN [s EXCEPT !.bits = @ \cup AllPos(e.ks), !.out = @ (+) KeysBag(e.ks, 1, Len(e.ks))] ELSE s   \* probes of a union event are taken on the result
+      unionEv == e.op \in {"union", "inter"}
+      interEv == e.op = "inter"
+      su == IF e.op = "union" /\ kind \in {"bloom", "disk"} THEN [s EXCEPT !.bits = @ \cup AllPos(e.ks), !.out = @ (+) KeysBag(e.ks, 1, Len(e.ks))] ELSE s   \* probes of a union event are taken on the result
   IN
   (IF ~unionEv /\ kind # "bits" /\ e.n # s.n THEN {IF kind = "qf" THEN "C04.count" ELSE "C14.count." \o kind} ELSE {})
-  \cup (IF kind \in {"bloom", "disk", "ebf"} /\ \E i \in I : Owed(su, pr[i][1]) > 0 /\ pr[i][2] = 0
+  \cup (IF kind \in {"bloom", "disk", "ebf"} /\ ~interEv /\ \E i \in I : Owed(su, pr[i][1]) > 0 /\ pr[i][2] = 0
         THEN {IF unionEv THEN "C01.present_after_union" ELSE "C01.present." \o kind} ELSE {})
-  \cup (IF unionEv /\ kind \in {"bloom", "disk"} /\ Len(e.full) > 0 /\ ~FullOK(s, e) THEN {"C12.cells"} ELSE {})
+  \cup (IF unionEv /\ kind \in {"bloom", "disk"} /\ ~FullOK(s, e) THEN {IF interEv THEN "C13.inter_bits" ELSE "C12.cells"} ELSE {})
   \cup (IF kind = "cbloom" /\ \E i \in I : pr[i][2] < Owed(s, pr[i][1]) THEN {"C08.cb_lower"} ELSE {})
   \cup (IF kind = "cms" /\ \E i \in I : (pr[i][2] < Owed(s, pr[i][1]) \/ pr[i][2] > s.n) THEN {"C02.bounds"} ELSE {})
   \cup (IF kind = "cms" /\ e.op \in {"add", "rem"} /\ Len(e.ks) = 1 /\ Len(pr) > 0 /\ pr[1][1] = e.ks[1][1] /\ e.ret # pr[1][2]
@@ -215,7 +221,7 @@ Bad(s, e) ==     \* s = model state after the event
   \cup (IF kind \in {"hh", "st"} /\ Len(e.full) > 0 /\ e.aux.dump = 1 /\ ~FullOK(s, e) THEN {IF kind = "hh" THEN "C17.hh_table" ELSE "C17.thr_exact"} ELSE {})
   \cup (IF kind = "bits" /\ \E i \in I : pr[i][2] # Answer(s, pr[i][1]) THEN {"C20.read_last_write"} ELSE {})
   \cup (IF kind = "bits" /\ e.aux.dump = 1 /\ (~FullOK(s, e) \/ e.ret # Cardinality(s.bits)) THEN {"C20.frame_popcount"} ELSE {})
-  \cup (IF kind \in {"cbloom", "cms"} /\ unionEv /\ Len(e.full) > 0 /\ ~FullOK(s, e) THEN {"C12.cells"} ELSE {})
+  \cup (IF kind \in {"cbloom", "cms"} /\ unionEv /\ ~FullOK(s, e) THEN {IF interEv THEN "C13.inter_bits" ELSE "C12.cells"} ELSE {})
   \cup (IF kind = "cms" /\ e.op = "join" /\ Len(e.full) > 0 /\ ~FullOK(s, e) THEN {"C12.cells"} ELSE {})       \* the joined sketch = one sketch fed both streams
   \cup (IF kind = "cms" /\ e.op = "join" /\ \E i \in I : pr[i][2] < Owed(s, pr[i][1]) THEN {"C12.sum_lower"} ELSE {})
   \cup (IF kind \notin {"qf", "cko", "ccko", "hh", "st", "bits"} /\ ~unionEv /\ \E i \in I : pr[i][2] # Answer(su, pr[i][1]) THEN {"DRIFT.answer"} ELSE {})
